@@ -137,7 +137,12 @@ func esiRespond(r *http.Request) *http.Response {
 }
 
 func serveOne(ip *interpreter.Interpreter, url, marker string) string {
-	o := sim.Observe(ip, "GET", "http://example.com"+url, [][2]string{{"X-Marker", marker}})
+	method := "GET"
+	if strings.HasPrefix(url, "PURGE") {
+		// a purge request: answered after vcl_recv, removes the object from the cache
+		method, url = "FASTLYPURGE", strings.TrimPrefix(url, "PURGE")
+	}
+	o := sim.Observe(ip, method, "http://example.com"+url, [][2]string{{"X-Marker", marker}})
 	return o.String()
 }
 
@@ -595,6 +600,12 @@ func gen18(tier string, emit func(Case)) {
 		emit(Case{Kind: "sim", Requests: []string{"/esi", other}, Bound: plan[0][1]})
 	}
 	emit(Case{Kind: "sim", Requests: []string{"/esi", "/c1", "/pass"}, Bound: plan[1][1]})
+	// a purge request (method FASTLYPURGE) next to each other request kind, and between two requests for the purged object
+	for _, other := range append([]string{"PURGE/c1"}, reqKinds...) {
+		emit(Case{Kind: "sim", Requests: []string{"PURGE/c1", other}, Bound: plan[0][1]})
+	}
+	emit(Case{Kind: "sim", Requests: []string{"/c1", "PURGE/c1", "/c1"}, Bound: plan[1][1]})
+	emit(Case{Kind: "race-sim", Requests: []string{"/c1", "PURGE/c1", "/c1", "PURGE/c2", "/c2", "/pass"}})
 	emit(Case{Kind: "race-sim", Requests: []string{"/esi", "/esi", "/c1", "/pass"}})
 	// auxiliary free-running -race pass over the same scenario bodies
 	for _, ms := range multisets(reqKinds, 3) {
@@ -650,7 +661,7 @@ func init() {
 	engine.Register(engine.Spec[Case]{
 		ID:    "C18",
 		Level: "model_checking",
-		Rule: "each case is one scenario whose schedules are explored exhaustively within the preemption bound by the controlled scheduler on the real code: sim = every multiset of 2..3 (thorough: 4) request kinds {cacheable /c1, /c2, pass, error, restart, penalty-box} with distinct markers against one Interpreter, followed by 3 sequential probe requests; plus /esi (a response whose body carries an ESI include, resolved during delivery) next to each other kind; plugin = 2..4 plugins on one statement, each answering 0/1/2 diagnostics, failing or answering garbage, one of them possibly not installed. evaluations = scenarios; steps = executions (schedules) run",
+		Rule: "each case is one scenario whose schedules are explored exhaustively within the preemption bound by the controlled scheduler on the real code: sim = every multiset of 2..3 (thorough: 4) request kinds {cacheable /c1, /c2, pass, error, restart, penalty-box} with distinct markers against one Interpreter, followed by 3 sequential probe requests; plus /esi (a response whose body carries an ESI include, resolved during delivery) and a FASTLYPURGE request next to each other kind; plugin = 2..4 plugins on one statement, each answering 0/1/2 diagnostics, failing or answering garbage, one of them possibly not installed. evaluations = scenarios; steps = executions (schedules) run",
 		Gen:  gen18,
 		// a worker starts no further scenario after this long (the ones left are reported as a cap, exhaustive=false):
 		// on a loaded machine the thorough tier would otherwise run for hours
